@@ -11,12 +11,14 @@ present, a tag pushed by several clients resolves to one of the manifests pushed
 shared subject holds every acknowledged, undeleted artifact."""
 import itertools
 import os
+import hashlib
 import json
 
 import apicheck
 import oracles
 from api import *
 import gen
+import gcgen
 
 LEVEL = "proof"
 REPOS = ["a", "b/c"]
@@ -488,6 +490,167 @@ def lag_check(ctx, only=None):
     return len(cases), n
 
 
+# ---- reads between any two store actions of one request ------------------------------------------------------------------
+def _ans(st, r):
+    """what a read answered, canonical"""
+    if r.get("panic"):
+        return ("panic",)
+    status = r.get("status")
+    body = base64.b64decode(r.get("b64") or "")
+    if st["kind"] == "refs" and status == 200:
+        try:
+            return (200, tuple(sorted(d.get("digest") for d in (json.loads(body).get("manifests") or []))))
+        except Exception:
+            return (200, "unparsable")
+    if st["kind"] == "tags" and status == 200:
+        try:
+            return (200, tuple(json.loads(body).get("tags") or []))
+        except Exception:
+            return (200, "unparsable")
+    if st["kind"] in ("mget", "blobget") and status == 200:
+        return (200, hashlib.sha256(body).hexdigest()[:16], (r.get("headers") or {}).get("Docker-Content-Digest", [""])[0][:23])
+    return (status,)
+
+
+def hooked_scenarios(rng, i):
+    """(name, sequential prefix, the request under test, reads, indexes of the reads that follow the referrers response)"""
+    repo = rng.choice(["a", "b/c"])
+    cfg, lay = b"{}", b"layer-%d" % i
+    base = image_manifest(desc(MT_CFG, cfg), [desc(MT_LAYER, lay)], annotations={"hk": "base-%d" % i})
+    sd = {"mediaType": MT_OCI_M, "digest": dg("sha256", base), "size": len(base)}
+    art1 = image_manifest(desc(MT_EMPTY, cfg), [], subject=sd, artifact_type="application/vnd.example.sig", annotations={"hk": "1-%d" % i})
+    art2 = image_manifest(desc(MT_EMPTY, cfg), [], subject=sd, artifact_type="application/vnd.example.sbom", annotations={"hk": "2-%d" % i})
+    other = image_manifest(desc(MT_CFG, cfg), [], annotations={"hk": "other-%d" % i})
+    idx = index_manifest([desc(MT_OCI_M, base), desc(MT_OCI_M, other)], annotations={"hk": "idx-%d" % i})
+    pre = [upload_post(repo, digest=dg("sha256", cfg), body=cfg), upload_post(repo, digest=dg("sha256", lay), body=lay),
+           manifest_put(repo, "base", base, ctype=MT_OCI_M), manifest_put(repo, dg("sha256", art1), art1, ctype=MT_OCI_M),
+           manifest_put(repo, "other", other, ctype=MT_OCI_M)]
+    reads = [referrers(repo, dg("sha256", base), None), tag_list(repo), manifest_get(repo, "base"), manifest_get(repo, "other"), manifest_get(repo, "moved"),
+             manifest_get(repo, "sig2"), manifest_get(repo, dg("sha256", art1)), manifest_get(repo, dg("sha256", art2)), manifest_get(repo, dg("sha256", idx)),
+             manifest_get(repo, dg("sha256", base)), blob_get(repo, dg("sha256", lay)), blob_get(repo, dg("sha256", b"late-blob-%d" % i)),
+             referrers(repo, dg("sha256", base), "application/vnd.example.sig")]
+    refs_ix = [0, 12]
+    late = b"late-blob-%d" % i
+    out = [("artifact-push", pre, manifest_put(repo, "sig2", art2, ctype=MT_OCI_M)),
+           ("artifact-delete", pre + [manifest_put(repo, "sig2", art2, ctype=MT_OCI_M)], manifest_delete(repo, dg("sha256", art2))),
+           ("artifact-delete-first", pre + [manifest_put(repo, "sig2", art2, ctype=MT_OCI_M)], manifest_delete(repo, dg("sha256", art1))),
+           ("tag-move", pre + [manifest_put(repo, "moved", base, ctype=MT_OCI_M)], manifest_put(repo, "moved", other, ctype=MT_OCI_M)),
+           ("tag-delete", pre + [manifest_put(repo, "moved", base, ctype=MT_OCI_M)], manifest_delete(repo, "moved")),
+           ("index-push", pre, manifest_put(repo, "moved", idx, ctype=MT_OCI_I)),
+           ("digest-delete", pre, manifest_delete(repo, dg("sha256", other))),
+           ("blob-push", pre, upload_post(repo, digest=dg("sha256", late), body=late))]
+    return [(n_, p_, r_, reads, refs_ix) for n_, p_, r_ in out]
+
+
+def hooked_check(ctx):
+    """every request of the list runs once per store action it performs, standing still before that action while another client
+    reads everything around it: the reads must be those of the state before the request or of the state after it - or, for an
+    artifact push / delete, of the state between its two critical sections (finding F53), which shows the artifact's own entry
+    without / with its line in the referrers list and nothing else out of place"""
+    rng = ctx.rng
+    binp = api_binary(ctx)
+    rounds = 1 if ctx.tier == "quick" else 6
+    scen = []
+    for i in range(rounds):
+        for store in ("mem", "dir"):
+            for sc in hooked_scenarios(rng, i):
+                scen.append((store,) + sc)
+
+    def mk(cid, store, pre, req, reads, at):
+        hk = dict(req, kind="hooked", inner=req["kind"], model="(skip)", impl=dict(req["impl"], op="hooked", n=at, mid=[x["impl"] for x in reads]))
+        steps = [dict(x) for x in pre] + [dict(x, phase="pre") for x in reads] + [hk] + [dict(x, phase="post") for x in reads]
+        for st in steps:
+            st["model"] = "(skip)"
+        return dict(id=cid, conf=mkconf(store=store, withsubj=False), steps=steps)
+    # first pass: which store actions does the request perform
+    first = [mk(960000 + j, store, pre, req, reads, 0) for j, (store, name, pre, req, reads, refs_ix) in enumerate(scen)]
+    io1 = run_api(ctx, binp, first, name="hooked0")
+    second, meta = [], {}
+    for j, (c, sc) in enumerate(zip(first, scen)):
+        hk = [r for st, r in zip(c["steps"], io1[c["id"]]["steps"]) if st["kind"] == "hooked"][0]
+        acts = hk.get("names") or []
+        for at in range(1, len(acts) + 1):
+            cid = 970000 + len(second)
+            second.append(mk(cid, sc[0], sc[2], sc[3], sc[4], at))
+            meta[cid] = (sc, at, acts)
+    io2 = run_api(ctx, binp, second, name="hooked1")
+    nbad = nlag = 0
+    for c in second:
+        (store, name, pre, req, reads, refs_ix), at, acts = meta[c["id"]]
+        io = io2[c["id"]]["steps"]
+        pre_a = [_ans(st, r) for st, r in zip(c["steps"], io) if st.get("phase") == "pre"]
+        post_a = [_ans(st, r) for st, r in zip(c["steps"], io) if st.get("phase") == "post"]
+        hk = [r for st, r in zip(c["steps"], io) if st["kind"] == "hooked"][0]
+        mid = (hk.get("par") or [[]])[0]
+        if len(mid) != len(reads):
+            continue          # the request took another path this time (fewer actions): nothing was read
+        mid_a = [_ans(st, r) for st, r in zip(reads, mid)]
+        if mid_a == pre_a or mid_a == post_a:
+            continue
+        # between the two critical sections of an artifact push / delete: everything but the referrers lists as after, the lists as before
+        # (a push updates the entry first, a delete the referrers response first)
+        lag = [pre_a[k] if k in refs_ix else post_a[k] for k in range(len(reads))]
+        lag2 = [post_a[k] if k in refs_ix else pre_a[k] for k in range(len(reads))]
+        diff = [(reads[k]["impl"]["path"] + ("?" + reads[k]["impl"]["query"] if reads[k]["impl"].get("query") else ""), pre_a[k], mid_a[k], post_a[k])
+                for k in range(len(reads)) if mid_a[k] != pre_a[k] or mid_a[k] != post_a[k]]
+        rep = dict(case=replayable(c), scenario=name, store=store, before_action=acts[at - 1], actions=acts, reads=[dict(read=d[0], before=str(d[1]), during=str(d[2]), after=str(d[3])) for d in diff])
+        if name.startswith("artifact") and mid_a in (lag, lag2):
+            nlag += 1
+            ctx.violation("%s on the %s store standing before its store action %d (%s): the reads of another client show the artifact's own entry %s while the referrers list of its subject %s it: "
+                          "a state no sequential order of the requests produces (the manifest entry and the referrers response are updated in separate critical sections)"
+                          % (name, store, at, acts[at - 1], ("already there" if "push" in name else "gone") if mid_a == lag else "as before the request",
+                             ("does not list yet" if "push" in name else "still lists") if mid_a == lag else ("already lists" if "push" in name else "no longer lists")), rep, "C11:referrers-lag-artifact-push")
+            continue
+        nbad += 1
+        what = "; ".join("%s answered %s (before the request %s, after it %s)" % (d[0], d[2], d[1], d[3]) for d in diff if d[2] != d[1] and d[2] != d[3])[:600] or \
+               "a mix of the answers before and after the request: " + "; ".join("%s %s" % (d[0], "as after" if d[2] == d[3] else "as before") for d in diff)[:600]
+        ctx.violation("%s on the %s store standing before its store action %d (%s): another client reads a state that is neither the one before the request nor the one after it: %s"
+                      % (name, store, at, acts[at - 1], what), rep, "C11:intermediate-state-%s" % name)
+    return len(second), nbad, nlag
+
+
+def pull_vs_collection_check(ctx):
+    """a pull by tag standing before each of its store actions while the tag is moved to another manifest and a collection (untagged
+    manifests are garbage, no grace period) is started: the pull answers with the old or the new manifest, never 404 - the
+    collection has to wait for the pull, or the pull must not need what the collection takes"""
+    rng = ctx.rng
+    binp = api_binary(ctx)
+    cases, meta = [], {}
+    for store in ("mem", "dir"):
+        for variant in range(2 if ctx.tier == "quick" else 8):
+            repo = rng.choice(["a", "b/c"])
+            cfg = b"{}"
+            m1 = image_manifest(desc(MT_CFG, cfg), [], annotations={"pv": "one-%d" % variant})
+            m2 = image_manifest(desc(MT_CFG, cfg), [], annotations={"pv": "two-%d" % variant})
+            pre = [upload_post(repo, digest=dg("sha256", cfg), body=cfg), manifest_put(repo, "latest", m1, ctype=MT_OCI_M), manifest_put(repo, "keep", m2, ctype=MT_OCI_M)]
+            pull = manifest_get(repo, "latest", head=bool(variant & 1))
+            mids = [manifest_put(repo, "latest", m2, ctype=MT_OCI_M), dict(kind="async", impl=dict(op="async", par=[[gcgen.gc_step(repo)["impl"]]]), model="(skip)"),
+                    special("sleep", secs=0.12)]
+            for at in range(1, 7):
+                hk = dict(pull, kind="hooked", model="(skip)", impl=dict(pull["impl"], op="hooked", n=at, mid=[x["impl"] for x in mids]))
+                steps = [dict(x) for x in pre] + [hk, dict(kind="join", impl=dict(op="join", secs=5.0), model="(skip)"), manifest_get(repo, "latest")]
+                for st in steps:
+                    st["model"] = "(skip)"
+                cid = 980000 + len(cases)
+                cases.append(dict(id=cid, conf=mkconf(store=store, withsubj=False, untagged=True, grace_ms=-1), steps=steps))
+                meta[cid] = (store, at, dg("sha256", m1), dg("sha256", m2))
+    iouts = run_api(ctx, binp, cases, name="pullgc")
+    nbad = 0
+    for c in cases:
+        store, at, d1, d2 = meta[c["id"]]
+        io = iouts[c["id"]]["steps"]
+        hk = [r for st, r in zip(c["steps"], io) if st["kind"] == "hooked"][0]
+        acts = hk.get("names") or []
+        if at > len(acts) or hk.get("panic"):
+            continue
+        got = (hk.get("headers") or {}).get("Docker-Content-Digest", [""])[0]
+        if hk.get("status") != 200 or got not in (d1, d2):
+            nbad += 1
+            ctx.violation("a pull of tag latest on the %s store, standing before its store action %d (%s) while the tag is moved and a collection starts, is answered %s %s: the tag named a manifest at every moment"
+                          % (store, at, acts[at - 1], hk.get("status"), got[:19]), dict(case=replayable(c), actions=acts, before_action=acts[at - 1]), "C11:pull-lost-to-collection")
+    return len(cases), nbad
+
+
 def run(ctx):
     res = {}
     if ctx.replay:
@@ -505,6 +668,8 @@ def run(ctx):
         import c07
         res["paged"] = c07.paged_delete_check(ctx)
         res["children"] = children_check(ctx)
+        res["hooked"] = hooked_check(ctx)
+        res["pullgc"] = pull_vs_collection_check(ctx)
         bodies = set()
         for c in cases:
             bodies |= set(c["contents"])
@@ -522,3 +687,5 @@ def run(ctx):
         ctx.coverage["referrers_mutex_schedules"], ctx.coverage["referrers_lag_observed"] = res.get("lag", (0, 0))
         ctx.coverage["paged_listings_across_a_delete"], ctx.coverage["paged_listings_incomplete"] = res.get("paged", (0, 0))
         ctx.coverage["children_pulled_during_index_updates"], ctx.coverage["children_reads_torn"] = res.get("children", (0, 0))
+        ctx.coverage["pulls_paused_during_tag_move_and_collection"], ctx.coverage["pulls_lost"] = res.get("pullgc", (0, 0))
+        ctx.coverage["requests_paused_before_each_store_action"], ctx.coverage["intermediate_states_observed"], ctx.coverage["referrers_lag_states_observed"] = res.get("hooked", (0, 0, 0))
